@@ -148,6 +148,7 @@ Proof. exact witness_swallowed. Qed.
    inside the write of gengo.sum, which then holds any prefix of its bytes.  E is any environment whose sum
    parser / printer are the byte-level ones of C08 (bytes.Lines, bytes.Fields; sorted keys) — e.g. Whole.whole_env. *)
 Require Gengo.Model.SumFile Gengo.Proofs.SumFile Gengo.Model.Whole Gengo.Proofs.WholeCrash Gengo.Props.Whole.
+Require Import Gengo.Proofs.PipelineWitnessCrash.
 
 Theorem C02_whole_crash_sum_content :
   forall (E : env), e_sum_bytes E = SumFile.sumfile_bytes ->
@@ -177,6 +178,64 @@ Theorem C02_whole_crash_then_skip_justified :
         \/ sum_get (current_sum w) (pk_path p) = sum_get (current_sum w2) (pk_path p)).
 Proof. exact Gengo.Props.Whole.Whole_crash_then_skip_justified. Qed.
 Print Assumptions C02_whole_crash_then_skip_justified.
+
+(* non-vacuity of the two crash theorems at crash states with a NON-EMPTY gengo.sum after which the next run does skip a
+   package (Proofs/PipelineWitnessCrash.v): an All run over m/a, m/b, m/c with previous outputs and a previous gengo.sum
+   that records m/a's current hash and other hashes for m/b and m/c.
+   (A) g1 returns an error in m/c: m/a is cached (pkg_changed = false, no call), m/b is regenerated, the run fails;
+       the state where Execute returns is a crash state; gengo.sum and the previous files of m/a and m/c are
+       byte-identical; in the NEXT run (m/b re-hashed) m/a is skipped, m/b and m/c are regenerated. *)
+Example C02_example_failed_run_with_cached_package :
+  exec_outcome wf_env wk_args wk_world wk_gens_fail wk_fs = Failed (EGen (bs "g1") (bs "m/c"))
+  /\ map (fun p => pkg_changed wk_args wk_world (load_prev wf_env wk_args wk_world wk_fs) p) (sorted_pkgs wk_world)
+     = [false; true; true]
+  /\ map (fun e => match e with EvCall _ p _ _ r => (p, r) | EvDefer _ p _ _ r => (p, r) end)
+         (exec_trace wf_env wk_args wk_world wk_gens_fail wk_fs) = [(bs "m/b", RNil); (bs "m/c", RErr)]
+  /\ List.length wk_effects_fail = 2
+  /\ wk_after_fail = exec_fs wf_env wk_args wk_world wk_gens_fail wk_fs
+  /\ lookups wk_after_fail wk_paths
+     = [Some (bs "A"); Some (bs "old a g1"); Some (bs "B"); Some (assemble (bs "b") (bs "g1") (bs "var B = 1"));
+        Some (bs "C"); Some (bs "old c g1"); Some wk_sum0].
+Proof. exact wk_failed_run. Qed.
+
+Example C02_example_crash_hypotheses_satisfiable :
+  files_ok wk_world /\ Gengo.Proofs.SumFile.kv_ok (current_sum wk_world)
+  /\ WholeCrash.crash_state wf_env wk_args wk_world wk_gens_fail wk_fs wk_after_fail
+  /\ map (fun p => pkg_changed wk_args wk_world2 (load_prev wf_env wk_args wk_world2 wk_after_fail) p) (sorted_pkgs wk_world2)
+     = [false; true; true].
+Proof. exact (conj wk_files_ok (conj wk_kv_ok (conj wk_crash_state_fail wk_next_after_fail))). Qed.
+
+(* C02_whole_crash_then_skip_justified applied there (p = m/a): the skip rests on the gengo.sum the failed run found *)
+Example C02_example_skip_after_failed_run_justified :
+  sum_get (current_sum wk_world2) (bs "m/a") <> []
+  /\ ((exists b, fs_lookup (sum_path wk_world) wk_fs = Some b
+                 /\ SumFile.sum_sum (SumFile.sumfile_load b) (bs "m/a") = sum_get (current_sum wk_world2) (bs "m/a"))
+      \/ sum_get (current_sum wk_world) (bs "m/a") = sum_get (current_sum wk_world2) (bs "m/a")).
+Proof. exact wk_skip_justified_after_fail. Qed.
+Print Assumptions C02_example_skip_after_failed_run_justified.
+
+(* (B) the same module, g1 succeeds everywhere, the process is killed INSIDE the write of gengo.sum after 14 bytes: the
+       file holds the complete line of m/a and "m/b h"; every generated file is complete; the next run skips m/a on
+       the strength of the complete line and regenerates m/b (torn line) and m/c (no line). *)
+Example C02_example_torn_sum :
+  WholeCrash.crash_state wf_env wk_args wk_world wk_gens_ok wk_fs wk_torn
+  /\ lookups wk_torn wk_paths
+     = [Some (bs "A"); Some (bs "old a g1"); Some (bs "B"); Some (assemble (bs "b") (bs "g1") (bs "var B = 1"));
+        Some (bs "C"); Some (assemble (bs "c") (bs "g1") (bs "var C = 1")); Some (bs "m/a h1:a" ++ nl ++ bs "m/b h")]
+  /\ SumFile.sumfile_load (bs "m/a h1:a" ++ nl ++ bs "m/b h") = [(bs "m/a", bs "h1:a"); (bs "m/b", bs "h")]
+  /\ map (fun p => pkg_changed wk_args wk_world (load_prev wf_env wk_args wk_world wk_torn) p) (sorted_pkgs wk_world)
+     = [false; true; true].
+Proof. exact (conj wk_crash_state_torn wk_torn_state). Qed.
+
+Example C02_example_skip_after_torn_sum_justified :
+  (fs_lookup (sum_path wk_world) wk_torn = fs_lookup (sum_path wk_world) wk_fs
+   \/ exists n, fs_lookup (sum_path wk_world) wk_torn = Some (firstn n (SumFile.sumfile_bytes (current_sum wk_world))))
+  /\ sum_get (current_sum wk_world) (bs "m/a") <> []
+  /\ ((exists b, fs_lookup (sum_path wk_world) wk_fs = Some b
+                 /\ SumFile.sum_sum (SumFile.sumfile_load b) (bs "m/a") = sum_get (current_sum wk_world) (bs "m/a"))
+      \/ sum_get (current_sum wk_world) (bs "m/a") = sum_get (current_sum wk_world) (bs "m/a")).
+Proof. exact (conj wk_torn_sum_content wk_skip_justified_torn). Qed.
+Print Assumptions C02_example_skip_after_torn_sum_justified.
 
 (* after the repair of pkgChanged (an empty current hash is never cached) the hypothesis "has a directory hash" of
    C02_empty_sum_regenerates is not needed any more *)
